@@ -55,6 +55,21 @@ func c12OpenFDs(dir string) int {
 	return n
 }
 
+// memory mappings of files under dir (also of files removed meanwhile)
+func c12OpenMaps(dir string) int {
+	data, err := os.ReadFile("/proc/self/maps")
+	if err != nil {
+		return 0
+	}
+	n := 0
+	for _, l := range strings.Split(string(data), "\n") {
+		if strings.Contains(l, dir) {
+			n++
+		}
+	}
+	return n
+}
+
 func runC12(t *Trace, r *Rng, tier string, _ []string) {
 	workloads, dur := 4, 700*time.Millisecond
 	if tier == "thorough" {
@@ -114,6 +129,28 @@ func runC12(t *Trace, r *Rng, tier string, _ []string) {
 					}
 					if rr.Chance(30) {
 						time.Sleep(time.Duration(rr.Intn(3)) * time.Millisecond)
+					}
+				}
+			}(w)
+		}
+		// two more writers that rewrite one and the same small set of documents: a segment can lose its last
+		// live document to the other writer before the persister has introduced its file
+		for w := 0; w < 2; w++ {
+			wg.Add(1)
+			go func(w int) {
+				defer wg.Done()
+				for n := 1; ; n++ {
+					select {
+					case <-stop:
+						return
+					default:
+					}
+					b := idx.NewBatch()
+					for k := 0; k < 6; k++ {
+						_ = b.Index(fmt.Sprintf("churn-%d", k), map[string]interface{}{"seq": float64(n), "wr": float64(w)})
+					}
+					if err := idx.Batch(b); err != nil {
+						return
 					}
 				}
 			}(w)
@@ -213,6 +250,7 @@ func runC12(t *Trace, r *Rng, tier string, _ []string) {
 		}
 		t.Emit(cat+"/retention-bound", true, "echo ok", within)
 		t.Emit(cat+"/fds-after-close", true, "echo 0", fmt.Sprint(c12OpenFDs(dir)))
+		t.Emit(cat+"/maps-after-close", true, "echo 0", fmt.Sprint(c12OpenMaps(dir)))
 		// and the directory opens
 		if idx2, err := bleve.Open(dir); err != nil {
 			t.Emit(cat+"/reopen", true, "echo ok", "open-failed:"+oneLine(err.Error()))
